@@ -320,7 +320,7 @@ class C14(Prop):
             if m in (0, 1, 2):
                 yield ("wheel_roundtrip", {"w": wheel_struct(rng), "seed": sd})
             elif m in (3, 4, 5):
-                kind = ["extension", "parts", "name", "build", "version"][(k // 10) % 5]
+                kind = ["extension", "parts", "name", "build", "version", "build_unicode_digit", "name_trailing_newline"][(k // 10) % 7]
                 yield ("wheel_rejects", {"w": wheel_struct(rng), "damage": kind, "sub": None, "seed": sd})
             elif m == 6:
                 yield ("sdist_roundtrip", {"s": sdist_struct(rng), "seed": sd})
